@@ -314,6 +314,18 @@ HBroadHave(k) ==
              /\ UNCHANGED mq
   /\ UNCHANGED <<st, mp, mg, stored, panic>>
 
+\* PieceReleased: a task that is not choked by its peer and has nothing in flight asks the manager for work,
+\* exactly as if the peer had just unchoked us; everybody else ignores it
+HBroadReleased(k) ==
+  /\ Idle(k) /\ bq[k] # <<>> /\ Head(bq[k]).t = "released"
+  /\ bq' = [bq EXCEPT ![k] = Tail(@)]
+  /\ IF h[k].hs /\ ~h[k].ch /\ h[k].rx.p = None
+     THEN /\ h' = [h EXCEPT ![k] = [@ EXCEPT !.wait = TRUE, !.trig = [t |-> "BroadReleased"]]]
+          /\ Enq(k, "Unchoke", None)
+     ELSE UNCHANGED <<h, mq>>
+  /\ Quiet
+  /\ UNCHANGED <<st, mp, mg, stored, panic>>
+
 HBroadState(k) ==
   /\ Idle(k) /\ bq[k] # <<>> /\ Head(bq[k]).t = "state"
   /\ bq' = [bq EXCEPT ![k] = Tail(@)]
@@ -462,12 +474,19 @@ MSyncStats(k) == /\ MHead(k, "SyncStats") /\ Pop
                  /\ UNCHANGED <<st, mg, h, bq, stored, panic>>
 
 \* KillReq: the piece assigned to the peer becomes assignable again, the peer is forgotten
+\* A piece that becomes assignable this way is announced to every connection task (PieceReleased), so that a task
+\* with nothing to fetch asks for work again.  (As found nothing was said: outside end game the piece stayed
+\* unrequested although a connected peer that does not choke us holds it - found by TLC as a violation of
+\* EventuallyComplete in MC_SwarmLive with EndGame = 1, reproduced on the code with 12 pieces.)
 MKill(k) == /\ MHead(k, "Kill") /\ Pop
-            /\ st' = IF mp[k].pidx # None /\ st[mp[k].pidx].k # "H"
-                     THEN [st EXCEPT ![mp[k].pidx] = [k |-> "M", n |-> 0]] ELSE st
+            /\ LET rel == mp[k].pidx # None /\ st[mp[k].pidx].k # "H" IN
+               /\ st' = IF rel THEN [st EXCEPT ![mp[k].pidx] = [k |-> "M", n |-> 0]] ELSE st
+               /\ bq' = IF rel /\ ~Bug("silentRelease")
+                         THEN [x \in Peers |-> IF h[x].alive THEN Append(bq[x], [t |-> "released"]) ELSE bq[x]]
+                         ELSE bq
             /\ mp' = [x \in Conn \ {k} |-> mp[x]]
             /\ Quiet
-            /\ UNCHANGED <<mg, h, bq, stored, panic>>
+            /\ UNCHANGED <<mg, h, stored, panic>>
 
 \* A good tracker reply adds its peers to the candidates (handle_tracker_cmd); connections are then opened
 \* for candidates while fewer than MaxUnchoked + 1 peers interest us (Connect with inc = FALSE)
@@ -609,7 +628,7 @@ FrameStep(k) ==
   \/ ~h[k].hs /\ ~Bug("preHandshake") /\ (FrameKinds \ {"Handshake", "KeepAlive", "Bad"}) # {} /\ HReject(k)
 
 HandlerStep(k) ==
-  \/ FrameStep(k) \/ HStart(k) \/ HConnFail(k) \/ HBroadHave(k) \/ HBroadState(k) \/ HTickKA(k)
+  \/ FrameStep(k) \/ HStart(k) \/ HConnFail(k) \/ HBroadHave(k) \/ HBroadState(k) \/ HBroadReleased(k) \/ HTickKA(k)
   \/ \E dl \in Rates, ul \in Rates : HTickStats(k, dl, ul)
   \/ \E n \in Pipeline : HReply(k, n)
 
